@@ -125,7 +125,7 @@ pub fn structural(v: &View, vd: &mut Verdict, prop: &str) {
 pub fn order(v: &View, vd: &mut Verdict, prop: &str) -> (usize, usize) {
     let subs: Vec<&OpRec> = v
         .client_ops()
-        .filter(|o| matches!(o.what, OpWhat::Send | OpWhat::Call | OpWhat::Ping) && o.actor.is_some())
+        .filter(|o| matches!(o.what, OpWhat::Send | OpWhat::Call | OpWhat::CallAbandoned | OpWhat::Ping) && o.actor.is_some())
         .collect();
     let enter_of = |o: &OpRec| -> Option<u64> {
         o.msg.and_then(|m| v.invs.iter().find(|i| i.msg == MsgRef::Client(m) && Some(i.actor) == o.actor).map(|i| i.enter))
